@@ -3,7 +3,7 @@
    type of a call is the union of the body's result and the explicit return values.  Proved: that union covers every
    call site (scalar argument types).  How ti reaches it — four rounds of replace-or-union in
    propagationForCalledTo — is exercised end to end, not modelled.  Proofs in InferP.v. *)
-From RT Require Import Model.Infer Proofs.InferP Model.Returns Proofs.ReturnsP.
+From RT Require Import Model.Infer Proofs.InferP Model.Returns Proofs.ReturnsP Model.Propagate Proofs.PropagateP Proofs.PropagateCoverP.
 
 Theorem C15_parameter_covers_call_sites : forall n args a, forallb scalar args = true -> In a args ->
   exists v, In v (t_vars (fold_left (fun acc v => append_variant (S n) acc v) args (MakeUnion []))) /\ same_kind v a = true.
@@ -32,3 +32,59 @@ Print Assumptions C15_returns_collected.
 Example C15_returns_example :
   method_type true [RReturn "Symbol"; RLambda [RReturn "String"]; RBlock [RReturn "Integer"] "Array<Integer>"] = ["Symbol"; "Integer"; "Array<Integer>"].
 Proof. vm_compute. reflexivity. Qed.
+
+(* How ti reaches the union, one round at a time: on the model of propagationForCalledTo for a parameter of a user-defined
+   method (Model/Propagate.v: the table entry is the type and its Round tag), the call sites of ONE round — evaluated in
+   any number, starting from a parameter nothing is known about — leave the parameter with exactly the distinct types of
+   their arguments, in order of first occurrence.  `dom` is any set of scalar argument types on which T.IsMatchType is
+   equality of tag and class. *)
+Theorem C15_round_collects : forall bm r (dom : ty -> Prop),
+  (forall a, dom a -> arg_ok a = true) -> (forall a b, dom a -> dom b -> is_match_type a b = same_kind a b) ->
+  forall args, args <> [] -> Forall dom args ->
+  exists dt, round_run bm r None args = Some (dt, r) /\ map kind (variants_or_self dt) = map kind (distinct_kinds [] args).
+Proof. exact round_from_fresh. Qed.
+Print Assumptions C15_round_collects.
+
+(* ... but the first call site of a NEW round replaces what the previous round collected, and is then checked against
+   the old type: the four rounds reach the union of all call sites only if each round reaches every call site again.
+   This is where the kept findings C15-round-heuristic and C15-call-before-def come from. *)
+Theorem C15_new_round_replaces :
+  let I := set_inf (Ty INT "Integer" VInt64 None "" "" "" [] no_flags "" "" "" [] [] []) true in
+  let S := Ty STRING "String" (VStr "s") None "" "" "" [] no_flags "" "" "" [] [] [] in
+  propagate false "check" (Some (I, "inference")) S = (false, Some (set_inf S true, "check")).
+Proof. exact new_round_replaces. Qed.
+Print Assumptions C15_new_round_replaces.
+
+(* ... and from ANY state earlier rounds may have left — no entry, or an inferred single type or union (wf_ty), under any
+   Round tag — the call sites of a round leave the parameter admitting the argument of every one of them: what a round
+   replaces (the first call site of a new round; the two-variant heuristic) it replaces before it has recorded anything
+   of this round.  This is the per-round form of "covers the union of the argument types at all call sites". *)
+Theorem C15_round_covers : forall bm r (dom : ty -> Prop), (forall a, dom a -> arg_ok a = true) ->
+  forall e args a, start_ok e -> Forall dom args -> In a args -> covered (round_run bm r e args) a.
+Proof. exact round_covers. Qed.
+Print Assumptions C15_round_covers.
+
+Example C15_round_covers_example :
+  let I := Ty INT "Integer" VInt64 None "" "" "" [] no_flags "" "" "" [] [] [] in
+  let S := Ty STRING "String" (VStr "s") None "" "" "" [] no_flags "" "" "" [] [] [] in
+  let U := set_inf (MakeUnion [MakeUntyped; I]) true in
+  start_ok (Some (U, "inference")) /\
+  option_map (fun e => (map t_cls (variants_or_self (fst e)), snd e)) (round_run false "check" (Some (U, "inference")) [I; S]) =
+    Some (["Integer"; "String"], "check") /\
+  option_map (fun e => (map t_cls (variants_or_self (fst e)), snd e)) (round_run false "check" (Some (U, "inference")) [S; I]) =
+    Some (["Untyped"; "Integer"; "String"], "inference").
+Proof. cbv zeta. split; [|split; vm_compute; reflexivity]. repeat split; try reflexivity. right. repeat split; cbn; lia. Qed.
+
+Example C15_round_example :
+  let I := Ty INT "Integer" VInt64 None "" "" "" [] no_flags "" "" "" [] [] [] in
+  let S := Ty STRING "String" (VStr "s") None "" "" "" [] no_flags "" "" "" [] [] [] in
+  let K := Ty OBJECT "K" (VStr "K") None "" "" "" [] no_flags "" "" "" [] [] [] in
+  let dom := fun a => In a [I; S; K] in
+  (forall a, dom a -> arg_ok a = true) /\ (forall a b, dom a -> dom b -> is_match_type a b = same_kind a b) /\
+  option_map (fun e => map t_cls (variants_or_self (fst e))) (round_run false "check" None [I; S; I; K; S]) = Some ["Integer"; "String"; "K"].
+Proof.
+  cbv zeta. split; [|split].
+  - intros a [<-|[<-|[<-|[]]]]; reflexivity.
+  - intros a b [<-|[<-|[<-|[]]]] [<-|[<-|[<-|[]]]]; reflexivity.
+  - vm_compute. reflexivity.
+Qed.
